@@ -37,7 +37,7 @@ SKIP = {
     "save_mei": "MEI export belongs to C19", "save_kern": "kern export belongs to C19",
     "save_wav": "audio synthesis (seconds per call)", "synthesize": "audio synthesis (seconds per call)",
     "decode_performance": "takes a performance ARRAY and builds a new performed part (C18)",
-    "iter_parts": "generator helper (modelled: Model/ArgForms.lean, stream `iterparts`)",
+    "iter_parts": "generator helper (modelled: Model/ArgForms.lean, stream `scoreforms`)",
 }
 DOC_INPLACE = re.compile(r"in[- ]place|WARNING: this modifies", re.I)
 SCORE_WORDS = re.compile(r"ScoreLike|`?\bPart\b`?|`?\bScore\b`?|PartGroup")
@@ -260,7 +260,9 @@ def build_score_form(form, rng):
     n = {"part": 1, "score_one": 1, "group_one": 1, "list_one": 1}.get(form, rng.choice([2, 2, 3]))
     parts = []
     for i in range(n):
-        pd = G.random_part_desc(rng, pid="P%d" % i, n_measures=rng.choice([1, 1, 2]), voices=rng.choice([1, 1, 2]),
+        # (ids that do not look like P<n>, and two parts with the SAME id: an exporter that "repairs" ids writes them)
+        pid = rng.choice(["P%d" % i, "P%d" % i, "P%d" % i, "vl-%d" % i, "P0", "part %d" % i])
+        pd = G.random_part_desc(rng, pid=pid, n_measures=rng.choice([1, 1, 2]), voices=rng.choice([1, 1, 2]),
                                 alters=(-1, 0, 0, 0, 1),
                                 divs=rng.choice([1, 2, 4, 4, 6, 8]) if i == 0 or rng.random() < 0.5 else None,
                                 p_grace=0.05)
@@ -791,4 +793,82 @@ def observe_staves(d):
                 oracle.append("number_of_staves modified its argument: staff attributes %s -> %s" % (before, [o.staff for o in objs]))
     req = "staves %d %s" % (len(toks), " ".join(toks))
     impl = "[" + ",".join(outs) + "]|[" + ",".join("-" if o.staff is None else str(o.staff) for o in objs) + "]"
+    return [req], [impl], oracle
+
+
+# ---------------------------------------------------------------------------------------------------- array views
+# `slice`: slice_notearray_by_time on a random small note array (times in ticks of a quarter beat, exactly
+# representable) with a random window, compared with Model/ArrayView.lean: the ARGUMENT array afterwards, the rows of
+# the result, and whether the result shares memory with the argument.
+def slice_desc(rng):
+    n = rng.choice([0, 1, 2, 3, 3, 4, 5, 6])
+    rows = []
+    for _ in range(n):
+        rows.append([rng.randint(-4, 16), rng.choice([0, 1, 2, 4, 4, 6, 8, 12]), rng.randint(30, 90)])
+    rows.sort(key=lambda r: r[0])
+    lo = min([r[0] for r in rows] + [0])
+    hi = max([r[0] + r[1] for r in rows] + [1])
+    shape = rng.choice(["cover", "cover", "none", "middle", "middle", "random", "inverted", "touch"])
+    if shape == "cover":
+        s, e = lo - rng.randint(0, 3), max([r[0] for r in rows] + [0]) + rng.randint(1, 4)   # every onset inside
+    elif shape == "none":
+        s = hi + rng.randint(0, 3)
+        e = s + rng.randint(1, 4)
+    elif shape == "middle":
+        s = rng.randint(lo, hi)
+        e = s + rng.randint(1, max(1, hi - lo))
+    elif shape == "inverted":
+        s = rng.randint(lo, hi)
+        e = s - rng.randint(0, 4)
+    elif shape == "touch":   # window edges ON an onset / an offset
+        r = rng.choice(rows) if rows else [0, 4, 60]
+        s = rng.choice([r[0], r[0] + r[1]])
+        e = s + rng.randint(1, 6)
+    else:
+        s, e = rng.randint(-6, 18), rng.randint(-6, 20)
+    return {"k": "slice", "rows": rows, "s": s, "e": e, "clip": rng.random() < 0.75, "unit": rng.choice(["auto", "beat"]),
+            "shape": shape}
+
+
+def observe_slice(d):
+    import numpy as np
+    import partitura.utils.music as M
+
+    q = 4
+    dt = [("onset_beat", "f4"), ("duration_beat", "f4"), ("pitch", "i4"), ("id", "U8")]
+    na = np.array([(r[0] / q, r[1] / q, r[2], "n%d" % i) for i, r in enumerate(d["rows"])], dtype=dt)
+    before = na.copy()
+
+    def rows_text(a):
+        out = []
+        for x in a:
+            on, du = float(x["onset_beat"]) * q, float(x["duration_beat"]) * q
+            if on != int(on) or du != int(du):
+                return "inexact"
+            out.append("(%d,%d,%d)" % (int(on), int(du), int(x["pitch"])))
+        return "[" + ",".join(out) + "]"
+
+    oracle = []
+    call = lambda: M.slice_notearray_by_time(na, d["s"] / q, d["e"] / q, time_unit=d["unit"], clip_onset_duration=d["clip"])
+    try:
+        res = call()
+        shared = res is na or bool(np.shares_memory(res, na))
+        impl = "%s|%s|%s" % (rows_text(na), rows_text(res), "S" if shared else "F")
+        if before.tobytes() != na.tobytes():
+            oracle.append("slice_notearray_by_time modified its argument array (window %s..%s ticks, rows %s): %s -> %s" % (
+                d["s"], d["e"], d["rows"], rows_text(before), rows_text(na)))
+        if shared:
+            oracle.append("slice_notearray_by_time returned a view of its argument (window %s..%s ticks covers %d of %d rows): "
+                          "writing to the result would modify the argument" % (d["s"], d["e"], len(res), len(na)))
+        first = res.copy()
+        res2 = call()
+        if res2.dtype != first.dtype or res2.tobytes() != first.tobytes():
+            oracle.append("slice_notearray_by_time is not repeatable: second call on the same array gives %s, the first gave %s" % (
+                rows_text(res2), rows_text(first)))
+        if res2 is res or bool(np.shares_memory(res2, res)) and len(res) > 0:
+            oracle.append("slice_notearray_by_time: the second result shares memory with the first")
+    except Exception as e:
+        impl = "err"
+    req = "slice %s %d %d %d %s" % ("1" if d["clip"] else "0", d["s"], d["e"], q,
+                                    "%d %s" % (len(d["rows"]), " ".join("%d %d %d" % tuple(r) for r in d["rows"])) if d["rows"] else "0")
     return [req], [impl], oracle
